@@ -71,8 +71,9 @@ def main():
         return 1
     dest = os.path.join(VERIF, 'seeded', name)
     os.makedirs(dest, exist_ok=True)
-    shutil.copy(patch, os.path.join(dest, 'patch.diff'))
-    shutil.copy(demo, os.path.join(dest, 'demo.py'))
+    if os.path.abspath(out) != os.path.abspath(dest):
+        shutil.copy(patch, os.path.join(dest, 'patch.diff'))
+        shutil.copy(demo, os.path.join(dest, 'demo.py'))
     meta = {}
     mp = os.path.join(out, 'meta.json')
     if os.path.exists(mp):
